@@ -2,10 +2,10 @@ SPECIFICATION Spec
 CONSTANTS
   FailingGov = FALSE
   MaxHeight = 5
-  MaxTx = 6
-  MaxPo = 2
+  MaxTx = 5
+  MaxPo = 1
   MaxFail = 1
-  Presets <- PresetsFull
+  Presets <- PresetsQuick
 VIEW View
 INVARIANT Inv
 PROPERTY StepProps
